@@ -1,16 +1,16 @@
 (* C10  Aggregation and join agree with naive evaluation at any memory limit.
    Statements only; each is closed by [exact] of a lemma from Proofs/. *)
-From ZV Require Import Base.Prelude Model.Agg Proofs.AggProofs.
-From Coq Require Import Permutation.
+From ZV Require Import Base.Prelude Model.Agg Proofs.AggProofs Model.Join Proofs.JoinProofs.
+From Coq Require Import Permutation Sorting.Sorted.
 
-(* The group-by operator (table with limit, spill of sorted runs, stable merge,
-   re-combination of adjacent records whose keys compare equal) emits, for every
-   table limit (0..k spills) and every input, exactly one row per distinct key
-   (same type and value) holding the aggregates over exactly that key's records
-   -- on inputs whose keys compare equal only when they are identical. *)
+(* The group-by operator (table with limit, spill of stably sorted runs, stable
+   merge, re-combination of adjacent records whose keys the spill comparator
+   cannot tell apart) emits, for every table limit (0..k spills) and every
+   input, exactly one row per distinct key (same type and value) holding the
+   aggregates over exactly that key's records.  Keys may be of mixed types,
+   numerically equal values of different types, nulls of any type, missing. *)
 Theorem C10_groupby_any_limit :
   forall (limit : N) (xs : list rec_in),
-    cmp_faithful key_cmp (to_rows xs) ->
     Permutation (groupby_model limit xs) (naive_groupby xs).
 Proof. exact groupby_model_correct. Qed.
 Print Assumptions C10_groupby_any_limit.
@@ -18,21 +18,27 @@ Print Assumptions C10_groupby_any_limit.
 (* ... hence the result depends neither on the order of the input nor on the limit. *)
 Theorem C10_groupby_order_and_limit_independent :
   forall (l1 l2 : N) (xs ys : list rec_in),
-    Permutation xs ys -> cmp_faithful key_cmp (to_rows xs) ->
+    Permutation xs ys ->
     Permutation (groupby_model l1 xs) (groupby_model l2 ys).
 Proof. exact groupby_model_order_limit_independent. Qed.
 Print Assumptions C10_groupby_order_and_limit_independent.
 
-(* The guard is necessary: the model of the code as it is merges distinct keys
-   that merely compare equal once it spills (1:int64 / 1:uint64, limit 1); the
-   same input is observed on the real operator by the harness. *)
-Theorem C10_groupby_spill_refuted :
-  exists limit xs, ~ Permutation (groupby_model limit xs) (naive_groupby xs).
-Proof. exact groupby_spill_refuted. Qed.
-Print Assumptions C10_groupby_spill_refuted.
+(* The spill comparator (keys by value, then keys by type and bytes) is a total
+   preorder under which only identical keys are equivalent. *)
+Theorem C10_spill_order_total_and_faithful :
+  (forall a, spill_cmp a a = Eq) /\
+  (forall a b, spill_cmp b a = CompOpp (spill_cmp a b)) /\
+  (forall a b c, spill_cmp a b <> Gt -> spill_cmp b c <> Gt -> spill_cmp a c <> Gt) /\
+  (forall a b, spill_cmp a b = Eq -> a = b).
+Proof.
+  exact (conj spill_cmp_refl (conj (fun a b => spill_cmp_antisym a b)
+        (conj (fun a b c => spill_cmp_trans a b c) spill_cmp_eq))).
+Qed.
+Print Assumptions C10_spill_order_total_and_faithful.
 
 (* The same statement for any key type with a total-preorder comparator and any
-   aggregation whose partial form is a commutative monoid. *)
+   aggregation whose partial form is a commutative monoid, on inputs whose keys
+   compare equal only when identical (the hypothesis the tie-break discharges). *)
 Theorem C10_groupby_generic :
   forall (K S : Type) (keqb : K -> K -> bool),
     (forall a b, keqb a b = true <-> a = b) ->
@@ -71,22 +77,13 @@ Theorem C10_partials_form_commutative_monoid :
 Proof. exact (conj st_consume_op (conj st_op_assoc (conj st_op_comm st_op_e))). Qed.
 Print Assumptions C10_partials_form_commutative_monoid.
 
-(* The key comparator is a total preorder (needed by the merge). *)
-Theorem C10_key_order_total_preorder :
-  (forall a, key_cmp a a = Eq) /\
-  (forall a b, key_cmp b a = CompOpp (key_cmp a b)) /\
-  (forall a b c, key_cmp a b <> Gt -> key_cmp b c <> Gt -> key_cmp a c <> Gt).
-Proof. exact (conj key_cmp_refl (conj (fun a b => key_cmp_antisym a b) (fun a b c => key_cmp_trans a b c))). Qed.
-Print Assumptions C10_key_order_total_preorder.
-
 (* ---- join *)
-From ZV Require Import Model.Join Proofs.JoinProofs.
-From Coq Require Import Sorting.Sorted.
 
 (* Over inputs sorted by the join key (any comparator that is a total preorder,
    so numerically equal keys of different types and nulls match as the operator
    compares them), the merge walk with its cached join set emits exactly the
-   nested-loop join, in the same order, for inner, left and anti joins. *)
+   nested-loop join, in the same order, for inner, left and anti joins (a right
+   join is a left join with the inputs swapped by the kernel). *)
 Theorem C10_join_sorted_inputs :
   forall (K L R : Type) (kcmp : K -> K -> comparison),
     (forall a, kcmp a a = Eq) ->
@@ -99,10 +96,21 @@ Theorem C10_join_sorted_inputs :
 Proof. exact join_sorted_inputs. Qed.
 Print Assumptions C10_join_sorted_inputs.
 
-(* With the sorts the operator inserts in front of unsorted inputs, the result is
-   the nested-loop join as a multiset, whatever the order of the inputs. *)
+(* Ascending mode: with the sorts the operator inserts in front of unsorted
+   inputs, the result is the nested-loop join as a multiset, whatever the order
+   of the inputs. *)
 Theorem C10_join_any_order :
   forall (kd : jkind) (ls rs : list jrec),
     Permutation (join_atoms kd ls rs) (nested_atoms kd ls rs).
 Proof. exact join_atoms_correct. Qed.
 Print Assumptions C10_join_any_order.
+
+(* Still false (open finding F-C10-7): in descending mode the inserted sort puts
+   nulls last while the walk expects them first, so with a correctly sorted
+   declared side the null keys of the two sides do not meet. *)
+Theorem C10_join_desc_inserted_sort_refuted :
+  exists ls rs,
+    StronglySorted (fun x y : jrec => atom_cmp_desc (fst x) (fst y) <> Gt) rs /\
+    ~ Permutation (join_desc_left_inserted JInner ls rs) (nested atom_cmp_desc fst fst JInner ls rs).
+Proof. exact join_desc_inserted_sort_refuted. Qed.
+Print Assumptions C10_join_desc_inserted_sort_refuted.
